@@ -1,5 +1,5 @@
 """C02 — the score: which strings are compared at which effective block size, on every entry point (not the score value)."""
-from ..rules import effbs, blocksize, convert, typestate, casts, vis, summary
+from ..rules import effbs, blocksize, convert, typestate, casts, vis, summary, features
 
 EXPL = ("Decides (SA-EFFBS, dimension analysis over MIR): at every scorer call site whose operands are block hashes of hash objects "
         "(FuzzyHashCompareTarget::compare* relation-specific variants, FuzzyHashData::compare via compare_optimized_internal) the two "
@@ -16,7 +16,7 @@ EXPL = ("Decides (SA-EFFBS, dimension analysis over MIR): at every scorer call s
 
 
 def run(ctx):
-    cfgs = ["dbg", "rel"] if ctx.tier == "quick" else ["dbg", "rel", "unsafe_dbg", "unsafe", "strict_dbg", "unchecked", "nodef"]
+    cfgs = ["dbg", "rel", "unchecked"] if ctx.tier == "quick" else ["dbg", "rel", "unsafe_dbg", "unsafe", "strict_dbg", "unchecked", "nodef"]
     ctx.progs(cfgs)  # build all configurations in parallel
     for c in cfgs:
         prog = ctx.prog(c)
@@ -33,6 +33,10 @@ def run(ctx):
         ctx.guard("C02", "views", lambda: typestate.views_are_like_indexed(ctx, prog))
         ctx.guard("C02", "equiv", lambda: typestate.equiv_exact(ctx, prog))
         ctx.guard("C02", "accumulate", lambda: typestate.accumulate_exact(ctx, prog))
+        if c == "unchecked":
+            # the `_unchecked` forms of the comparison API are their `_internal` bodies (a re-implemented twin is a second, unchecked implementation)
+            ctx.guard("C02", "twins", lambda: features.twins(ctx, prog, scope='internals::compare::|position_array::', floor=8))
+        ctx.guard("C02", "distance-exits", lambda: effbs.distance_exits(ctx, prog))
         ctx.guard("C02", "summaries", lambda: summary.check(ctx, prog, 'internals::compare::|compare_easy::', floor=10))
         ctx.guard("C02", "traits", lambda: vis.trait_census(ctx, prog, scope='position_array::|FuzzyHashCompareTarget'))
         ctx.guard("C02", "casts", lambda: casts.census(ctx, prog, scope='internals::compare::', floor=3))
